@@ -1943,3 +1943,25 @@ impl ConfigReg for Command {
         }
     }
 }
+
+// Verification hook (compiled only with `--cfg bma400_verif`): a register with a run-time address
+#[cfg(bma400_verif)]
+pub struct VerifReg {
+    pub addr: u8,
+    pub val: u8,
+}
+
+#[cfg(bma400_verif)]
+impl ReadReg for VerifReg {
+    const ADDR: u8 = 0;
+    fn addr(&self) -> u8 {
+        self.addr
+    }
+}
+
+#[cfg(bma400_verif)]
+impl ConfigReg for VerifReg {
+    fn to_byte(&self) -> u8 {
+        self.val
+    }
+}
